@@ -191,6 +191,10 @@ def truncating_dtypes(tree):
                 continue
             kws = {k.arg: k.value for k in c.keywords}
             d = kws.get("dtype")
+            maker = (dotted(c.func) or "").split(".")[-1]
+            if d is None and maker.endswith("_like") and c.args and isinstance(c.args[0], (ast.Name, ast.Attribute)):
+                found.append((c.lineno, "P3", fn.name, f"`{src(c)[:60]}` inherits the dtype of `{src(c.args[0])}`: when that array is integral (an integer point, integer coefficients) the floating values stored into the new array are truncated to integers without any signal", f"like={src(c.args[0])}"))
+                continue
             if d is None:
                 continue
             # does the array receive evaluated values?  (its elements come from calls, or it is filled afterwards)
@@ -207,6 +211,69 @@ def truncating_dtypes(tree):
                 if txt in INT_DTYPES:
                     found.append((c.lineno, "P3", fn.name, f"`{src(c)[:60]}` can get the dtype {txt}: floating values stored into it are truncated to integers without any signal", f"dtype={txt}"))
                     break
+    return found
+
+
+def _consumptions(name, fn):
+    """statements of ``fn`` that run through the iterable ``name`` from its start: loops, comprehensions, consuming calls,
+    `sep.join(name)`, truth tests do not count (a generator is always true)"""
+    out = []
+    for n in _own(fn):
+        if isinstance(n, (ast.For, ast.comprehension)) and isinstance(n.iter, ast.Name) and n.iter.id == name:
+            out.append(n)
+        elif isinstance(n, ast.Call) and any(isinstance(a, ast.Name) and a.id == name for a in n.args):
+            f = n.func.attr if isinstance(n.func, ast.Attribute) else (dotted(n.func) or "")
+            if f in ("sum", "list", "tuple", "max", "min", "any", "all", "sorted", "array", "fromiter", "dict", "set", "frozenset", "join", "extend", "update", "chain"):
+                out.append(n)
+    return out
+
+
+def generators_passed_to_reiterating_functions(prog, rels, gens):
+    """P1 (c): a function of the package runs through one of its parameters twice, and a call site in the listed files
+    passes a one-shot iterator for it: the second pass sees nothing."""
+    found = []
+    twice = {}
+    for fi in prog.functions.values():
+        if not isinstance(fi.node, (ast.FunctionDef, ast.AsyncFunctionDef)):
+            continue
+        stores = {n.id for n in _own(fi.node) if isinstance(n, ast.Name) and isinstance(n.ctx, ast.Store)}
+        for a in fi.node.args.args + fi.node.args.kwonlyargs:
+            if a.arg in stores:
+                continue
+            cons = _consumptions(a.arg, fi.node)
+            if len(cons) >= 2:
+                twice[(fi.name, a.arg)] = (fi, cons)
+    if not twice:
+        return found
+    from ..inline import bind_args
+    for m in prog.modules.values():
+        if m.rel not in rels:
+            continue
+        for caller in [n for n in ast.walk(m.tree) if isinstance(n, (ast.FunctionDef, ast.AsyncFunctionDef))]:
+            local_gen = {}
+            for st in _own(caller):
+                if isinstance(st, ast.Assign) and len(st.targets) == 1 and isinstance(st.targets[0], ast.Name):
+                    w = _is_one_shot(st.value, gens)
+                    if w:
+                        local_gen[st.targets[0].id] = w
+            for c in _own(caller):
+                if not isinstance(c, ast.Call):
+                    continue
+                nm = c.func.id if isinstance(c.func, ast.Name) else c.func.attr if isinstance(c.func, ast.Attribute) else None
+                for (fname, pname), (fi, cons) in twice.items():
+                    if nm != fname:
+                        continue
+                    try:
+                        arg = bind_args(fi.node, c).get(pname)
+                    except Exception:
+                        arg = None
+                    if arg is None:
+                        continue
+                    what = _is_one_shot(arg, gens) or (local_gen.get(arg.id) if isinstance(arg, ast.Name) else None)
+                    if what:
+                        found.append((c.lineno, "P1", caller.name,
+                                      f"passes {what} as `{pname}` to {fname}(), which runs through `{pname}` twice (lines {getattr(cons[0], 'lineno', '?')} and {getattr(cons[1], 'lineno', '?')}): the second pass finds the iterator exhausted and sees no elements",
+                                      f"{fname}({pname})"))
     return found
 
 
@@ -262,7 +329,8 @@ def report(prog, rep, rule, rels, kinds=("P1", "P2", "P3"), skip_functions=()):
         if m.rel not in rels:
             continue
         n_fn += sum(1 for n in ast.walk(m.tree) if isinstance(n, (ast.FunctionDef, ast.AsyncFunctionDef)))
-        for lineno, kind, fname, msg, key in _run(m.tree, gens, kinds):
+        extra = generators_passed_to_reiterating_functions(prog, [m.rel], gens) if "P1" in kinds else []
+        for lineno, kind, fname, msg, key in _run(m.tree, gens, kinds) + extra:
             if fname in skip_functions:
                 continue
             total += 1
